@@ -5,7 +5,7 @@ use getrandom::{getrandom, Error};
 use super::{
     default_number,
     error::{NativeError, NativeResult},
-    smart_vec, usize_from_f64,
+    smart_vec,
 };
 
 use crate::{
@@ -95,9 +95,13 @@ pub fn int_to_hex(params: &[Value]) -> NativeResult {
 ///
 /// Will return [`NativeError::WrongParameterCount`] if there is a mismatch in the supplied parameters.
 /// Will return [`NativeError::WrongParameterType`] if the the supplied parameters have the wrong type.
+fn is_even(value: f64) -> bool {
+    value.floor() % 2.0 == 0.0
+}
+
 pub fn even(params: &[Value]) -> NativeResult {
     match params {
-        [Value::Number(value)] => Ok(Value::Boolean(usize_from_f64(*value) % 2 == 0)),
+        [Value::Number(value)] => Ok(Value::Boolean(is_even(*value))),
         [_] => Err(NativeError::WrongParameterType),
         _ => Err(NativeError::WrongParameterCount(1)),
     }
@@ -113,7 +117,7 @@ pub fn even(params: &[Value]) -> NativeResult {
 /// Will return [`NativeError::WrongParameterType`] if the the supplied parameters have the wrong type.
 pub fn odd(params: &[Value]) -> NativeResult {
     match params {
-        [Value::Number(value)] => Ok(Value::Boolean(usize_from_f64(*value) % 2 != 0)),
+        [Value::Number(value)] => Ok(Value::Boolean(!is_even(*value))),
         [_] => Err(NativeError::WrongParameterType),
         _ => Err(NativeError::WrongParameterCount(1)),
     }
